@@ -1,6 +1,13 @@
 mod assert;
 mod misc;
 mod primitives;
+
+/// Verification hooks (cargo feature `verif`, off by default): wrappers over private index helpers
+#[cfg(feature = "verif")]
+pub mod verif {
+  pub use super::primitives::list::verif_list_determine_index;
+  pub use super::primitives::tuple::verif_tuple_determine_index;
+}
 mod time;
 
 #[cfg(test)]
